@@ -52,6 +52,9 @@ GETITEMS = {"operator_dict.OperatorDict.__getitem__": ("OperatorDict", 2, "do_co
             "operator_dict.Registry.__getitem__": ("Registry", 2, "do_compile")}
 
 
+KEY0, KEY1 = (4, 1, 2), (3, 6, 5)
+
+
 def run_getitem(repo, qual, wrapper=False):
     kind, n, gen = GETITEMS[qual]
     log = {"created": [], "generated": [], "wrapped": []}
@@ -95,7 +98,8 @@ def run_getitem(repo, qual, wrapper=False):
             return tape(*args, **kwargs)
         return prev(name, args, kwargs)
     it.class_call_hook = cch
-    key = (tok("K0"), tok("K1")) if n == 2 else tok("K0")
+    # concrete key patterns in NON-canonical storage order (so that re-ordering them is visible)
+    key = (KEY0, KEY1) if n == 2 else KEY0
     out = it.run(qual, [me, key])
     log.update({"out": out, "cache": cache, "numspace": numspace, "key": key, "func": func, "wrapped_obj": wrapped})
     # second lookup must hit
@@ -124,7 +128,7 @@ def key_provenance(ctx):
             if log["out"][0] == "raise":
                 ctx.violation(c, f"the cache-miss path raises {log['out'][1]}", fn)
                 continue
-            want_keys = ["K0", "K1"][:n]
+            want_keys = [KEY0, KEY1][:n]
             problems = []
             got_keys = [cr["keys"] for cr in log["created"]]
             if got_keys != want_keys:
@@ -331,7 +335,7 @@ def capture_stubs(it, sources):
     it.builtins["compile"] = PyFunc(compile_, "compile", True)
     it.builtins["exec"] = PyFunc(exec_, "exec", True)
     it.builtins["callable"] = PyFunc(lambda x: isinstance(x, (Closure, PyFunc, ClassRef)) or (isinstance(x, Obj) and x.call is not None), "callable", True)
-    printer = Obj("LambdaPrinterInstance", {"doprint": PyFunc(lambda e: e if isinstance(e, str) else e.attrs["fmt"], "doprint", True)})
+    printer = Obj("LambdaPrinterInstance", {"doprint": PyFunc(lambda e: e if isinstance(e, str) else e.attrs["fmt"] if isinstance(e, Obj) else str(e), "doprint", True)})
     lp = Obj("LambdaPrinter", call=lambda *a, **k: printer)
     it.standins["sympy.printing.lambdarepr.LambdaPrinter"] = lp
     it.standins["sympy.simplify.cse_main.cse"] = PyFunc(lambda exprs, **k: ([], list(exprs)), "cse", True)
@@ -371,7 +375,8 @@ def check_source(ctx, c, fn, src, funcname, operand_names, exprs, deps):
         ctx.ok(c, fn, emitted=src)
 
 
-@rule("C08.emitted-source", props=["C08", "C02", "C13"], min_instances=7, mutants=[
+@rule("C08.emitted-source", props=["C08", "C02", "C13", "C12"], min_instances=9, mutants=[
+    ("one zero expression zeroes the whole result", ("codegen", "    if not any(_exprs):", "    if not all(_exprs):")),
     ("func_builder unpacks sorted names", ("codegen", "            body += f'    [{\", \".join(str(v) for v in mv.values())}] = {arg}\\n'", "            body += f'    [{\", \".join(sorted(str(v) for v in mv.values()))}] = {arg}\\n'")),
     ("func_builder pairs operands with reversed parameters", ("codegen", "        for mv, arg in zip(mvs, args):", "        for mv, arg in zip(mvs, reversed(args)):")),
     ("lambdify slices exprs/dependencies wrongly after cse", ("codegen", "_exprs, _rhsides = _all_exprs[:-len(rhsides)], _all_exprs[len(exprs):]", "_exprs, _rhsides = _all_exprs[:len(rhsides)], _all_exprs[len(exprs):]")),
@@ -433,6 +438,21 @@ def emitted_source(ctx):
                 continue
             check_source(ctx, c, fn, sources[-1], "inv_7", [["a3", "a1", "a123"], ["b2", "b"]], ["E0", "E4", "E3"],
                          [("d", "DENOM_INV")] if with_deps else [])
+    # an explicit numeric zero next to non-zero expressions (a symbolic multivector that stores a 0), and all zeros
+    for label, ex, want in (("one zero expression", [0, tok("E4"), tok("E3")], ["0", "E4", "E3"]),
+                            ("all expressions zero", [0, 0], ["0", "0"])):
+        c = f"{q}#{label}"
+        it = make_interp(repo)
+        sources = []
+        capture_stubs(it, sources)
+        try:
+            out = it.run(q, [{"A": list(xv)}, list(ex)], {"funcname": "call_7", "cse": False})
+        except NoValue as exc:
+            raise Unknown(c, str(exc), fn)
+        if out[0] == "raise" or not sources:
+            ctx.violation(c, f"lambdify {out[0]} {out[1]!r} without emitting source", fn)
+            continue
+        check_source(ctx, c, fn, sources[-1], "call_7", [["a3", "a1", "a123"]], want, [])
     # string expressions with dependencies (the sqrt path)
     c = f"{q}#string-exprs"
     it = make_interp(repo)
